@@ -491,3 +491,46 @@ Fixpoint prio_check_all (base : sched_case) (vs : list (list nat)) (os : list sc
 Definition c05_check2 (x : (sched_case * list (list nat) * list sched_case) * list sched_obs) : bool :=
   let '(base, prios, variants) := fst x in
   sched_check_all variants (snd x) && prio_check_all base prios (snd x).
+
+(** * The connect phase of harness compositions (C04: cycles in the initial exchange)
+
+    A harness time component with [initpull] pulls every input once for [t0] during connect.  With the flag
+    "publish after pull" it provides its initial data only after all those pulls succeeded.  [published] is the
+    least fixed point of  "k publishes iff it need not wait, or all its sources have published"; a component
+    is connected iff it has published and its pulls are served.  Sources are time components (the generator
+    of this family uses no pull-based components). *)
+Definition has_initpull (k : ckind) : bool := match k with KTime _ _ b => b | KPull => false end.
+
+Definition srcs_of (c : comp) : list nat := map (fun i => fst (i_src i)) (c_inputs c).
+
+Definition pub_step (cs : composition) (paps : list bool) (pub : list bool) : list bool :=
+  map (fun k => let c := getc cs k in
+                negb (nth k paps false && has_initpull (c_kind c))
+                || forallb (fun j => nth j pub false) (srcs_of c))
+      (seq O (length cs)).
+
+Fixpoint pub_iter (n : nat) (cs : composition) (paps : list bool) (pub : list bool) : list bool :=
+  match n with O => pub | S n' => pub_iter n' cs paps (pub_step cs paps pub) end.
+
+Definition published (cs : composition) (paps : list bool) : list bool :=
+  pub_iter (length cs) cs paps (map (fun _ => false) cs).
+
+Definition connected_after (cs : composition) (paps : list bool) (k : nat) : bool :=
+  let c := getc cs k in
+  let pub := published cs paps in
+  nth k pub false && (negb (has_initpull (c_kind c)) || forallb (fun j => nth j pub false) (srcs_of c)).
+
+(** indices of the components that cannot complete the connect phase (in list order) *)
+Definition connect_stuck (cs : composition) (paps : list bool) : list nat :=
+  filter (fun k => negb (connected_after cs paps k)) (seq O (length cs)).
+
+(** C04 correspondence: composition, publish-after-pull flags; observation: the stuck components reported by
+    connect (empty = connected), and the run observation when connect succeeded *)
+Definition c04_case : Type := sched_case * list bool.
+Definition c04_obs : Type := list nat * sched_obs.
+Definition c04_check (x : c04_case * c04_obs) : bool :=
+  let '(sc, paps) := fst x in
+  let '(cs, _, _) := sc in
+  let '(stuck, so) := snd x in
+  list_eqb Nat.eqb (connect_stuck cs paps) stuck
+  && match stuck with [] => sched_check (sc, so) | _ => true end.
